@@ -146,7 +146,7 @@ def run(tier, argv):
     # (tag, programs, operation kinds, operations per behaviour, constrained addresses, new arguments on update)
     if tier == "quick":
         plans = [("a", ["vd"], allops, 2, 2, "all"), ("b", ["fr", "vf"], sur, 2, 1, "same"),
-                 ("c", ["fvc", "frk", "fvi", "fcv"], ["simulate", "generate"], 1, 2, "all"), ("d", ["fvc", "frk", "fvi"], sur, 2, 1, "all"), ("e", ["fve"], sur, 2, 1, "same")]
+                 ("c", ["fvc", "frk", "fvi", "fcv"], ["simulate", "generate"], 1, 2, "all"), ("d", ["fvc", "frk", "fvi"], sur, 2, 1, "all"), ("e", ["fve", "fvcb"], sur, 2, 1, "same")]
     else:
         plans = [("a", ["vd", "fr"], allops, 2, 2, "all"), ("b", ["vf", "fv"], allops, 2, 1, "same"), ("c", ["fvf", "fvs"], sur, 2, 1, "same"),
                  ("d", ["fvc", "frk", "fvi", "fcv"], ["simulate", "generate"], 1, 2, "all"), ("e", ["fvc", "frk", "fvi", "fcv"], sur, 2, 1, "all"), ("f", ["fe", "fve"], allops, 2, 1, "same")]
